@@ -2456,5 +2456,59 @@ theorem rowMajor_tryGet_eq_data (m : Matrix α) (h : m.Inv) :
   rw [Nat.mul_comm] at this
   omega
 
+/-! ## 18. Display -/
+
+theorem formatRowLoop_ok (get : Nat → Option String) (columns : Nat) :
+    ∀ (L : List Nat), (∀ c ∈ L, ∃ v, get c = some v) →
+      formatRowLoop get columns L =
+        .ok ((L.filterMap fun c =>
+          (get c).map fun v => v :: (if c < columns - 1 then [", "] else [])).flatten) := by
+  intro L
+  induction L with
+  | nil => intro _; rfl
+  | cons c L ih =>
+    intro h
+    obtain ⟨v, hv⟩ := h c List.mem_cons_self
+    simp only [formatRowLoop, hv, ih (fun c' hc' => h c' (List.mem_cons_of_mem _ hc')),
+      List.filterMap_cons, Option.map_some, List.flatten_cons, List.cons_append]
+
+theorem formatRowsLoop_ok (row : Nat → Outcome (List String)) (g : Nat → List String) (rows : Nat) :
+    ∀ (L : List Nat), (∀ r ∈ L, row r = .ok (g r)) →
+      formatRowsLoop row rows L =
+        .ok ((L.map fun r =>
+          (if 0 < r then ["  "] else []) ++ g r ++ (if r < rows - 1 then ["\n"] else [])).flatten) := by
+  intro L
+  induction L with
+  | nil => intro _; rfl
+  | cons r L ih =>
+    intro h
+    simp only [formatRowsLoop, h r List.mem_cons_self,
+      ih (fun r' hr' => h r' (List.mem_cons_of_mem _ hr')), List.map_cons, List.flatten_cons,
+      List.append_assoc]
+
+/-- `Display` of a matrix satisfying the invariant is the text of its list of rows -/
+theorem display_spec (sh : α → String) (m : Matrix α) (h : m.Inv) :
+    m.display sh = .ok (Rows.display sh m.toRows) := by
+  have hn : Rows.nrows m.toRows = m.rows := length_toRows m
+  have hc : Rows.ncols m.toRows = m.columns := ncols_toRows m h
+  have hrow : ∀ r ∈ List.range m.rows,
+      formatRowLoop (fun c => (m.tryGet r c).map sh) m.columns (List.range m.columns) =
+        .ok (Rows.rowTokens sh m.toRows r) := by
+    intro r hr
+    rw [formatRowLoop_ok _ _ _ (by
+      intro c hc'
+      obtain ⟨x, hx⟩ := tryGet_isSome m h.1 (List.mem_range.mp hr) (List.mem_range.mp hc')
+      exact ⟨sh x, by simp [hx]⟩)]
+    unfold Rows.rowTokens
+    rw [hc]
+    congr 2
+    apply filterMap_congr'
+    intro c _
+    rw [cell_toRows, Option.map_map]
+    rfl
+  unfold display formatTokens
+  rw [formatRowsLoop_ok _ (Rows.rowTokens sh m.toRows) m.rows _ hrow]
+  simp only [Rows.display, Rows.displayTokens, hn, List.cons_append]
+
 end Matrix
 end EasyMl
